@@ -159,6 +159,34 @@ func clIteratorRefPairing(c *Ctx) {
 		}
 		c.Check(okSnap, newIt, in, "iterator records the snapshot it opened", "Iterator.Close would release a different snapshot than the one opened")
 	}
+	// nothing that releases a snapshot reference runs unless Open succeeded
+	relFns := map[*ssa.Function]bool{}
+	for _, g := range p.Funcs {
+		for _, h := range p.reachableFrom(g) {
+			if h == snapClose {
+				relFns[g] = true
+				break
+			}
+		}
+	}
+	for _, in := range fi.Instrs {
+		ci, ok := in.(ssa.CallInstruction)
+		if !ok {
+			continue
+		}
+		rel := false
+		for _, cal := range p.Callees(in) {
+			if relFns[cal] {
+				rel = true
+			}
+		}
+		if !rel {
+			continue
+		}
+		_, isDefer := ci.(*ssa.Defer)
+		c.Check(!isDefer && fi.guardedByCall(in, true, open), newIt, in, "NewIterator releases a snapshot reference only if its own Open succeeded",
+			"the refused-Open path runs "+p.calleeName(in)+", which drops a reference that was never taken: the count of a retired snapshot goes below zero and a later Open succeeds on it")
+	}
 	// Iterator.Close releases exactly one reference, of it.snap, on every path
 	cfi := p.Info(itClose)
 	closes := p.CallSites(itClose, snapClose)
